@@ -12,6 +12,12 @@ TimeoutError / OSError, m-th reconnect); the client's mutex is instrumented, so 
 acquire, write(timeout, result), read(k, timeout), reconnect(result), release with virtual timestamps.  The client
 timeout may be `None` or 0 there (`timeout if timeout else 0`, `_read`'s `timeout is None and self.timeout`).
 
+Session cases (`{"session": [step, ...]}`, model `Model/ClientSession.lean`): several requests, one after the other, in
+ONE fresh process, over 24 request kinds whose services share sub-function ids.  `runSession` keeps nothing between
+requests (theorems `session_step`, `session_history_irrelevant`), so every step is compared with the model of that step
+alone; a step that ends differently only because of what the process requested before is a failing input whose replay
+is the whole (minimised) session.
+
 Whether a difference falsifies the *property* is decided by the specification `Spec/ClientSpec.lean` (widened cases:
 `Spec/ClientIOSpec.lean`): by the theorems `implied_iff_run`, `writes_eq`, `reads_le`, `elapsed_le`, `first_final` and
 `pending_no_write` of `Proofs/C04.lean` (widened: the same names with `_io`) an observed behaviour satisfies the
@@ -48,6 +54,11 @@ ASSUMPTIONS = [
     "effective timeout may be None or 0: a transport call that got no deadline and still raises TimeoutError does so on "
     "its own account (0 ms); a transport that blocks forever without a deadline is outside the model; with timeout 0 "
     "only replies that are already there (latency 0) are delivered",
+    "sessions: the requests of a session are issued one after the other (C05 covers concurrent callers), each on a client "
+    "object of its own over its own scripted transport; what can be carried from one request to the next is therefore "
+    "process-level state (module / class attributes of the parser and the client classes), not attributes of a client "
+    "instance.  Every session starts in a process forked from a helper that has imported gallia and built the request "
+    "objects but has never parsed a PDU",
     "asyncio.Lock is released by `async with` whatever leaves the block (contract of asyncio; observed on an "
     "instrumented lock in every widened case)",
 ]
@@ -1591,7 +1602,12 @@ MANIFEST = {
                    "read-event script up to length 6 (quick) / 8 (thorough) x max_retry 0..3, configuration overrides, long runs "
                    "across the pending and silence limits; every widened script (write / read / reconnect decisions) up to 10 "
                    "(quick) / 12 (thorough) decisions x max_retry 0..3 and up to 8 / 9 x 8 configurations (timeout None / 0, "
-                   "overrides); call sequence incl. mutex acquire / release, deadlines, timestamps, outcome and __cause__ compared."),
+                   "overrides); call sequence incl. mutex acquire / release, deadlines, timestamps, outcome and __cause__ compared. "
+                   "Sessions (Model/ClientSession.runSession; session_step / session_history_irrelevant: a request's result "
+                   "does not depend on the requests before it; session_writes_le / session_elapsed_le: the bounds add up): "
+                   "every ordered pair of 24 request kinds (31 01..03, 19 01/02/0A, 2C 01..03, 10 01..03, 11 01/03, 27 01/02, "
+                   "28 01/03, 85 01/02, 3E 00, 22, unknown service) and seeded random sessions of 2..6 requests run on the real "
+                   "client in one fresh process each, every request compared with the history-free model."),
     "level_note": ("Trusted: Lean kernel (propext, Quot.sound, Classical.choice), asyncio timeouts/sleep/Lock under the "
                    "virtual-time loop, the fake transport, the harness. A failing reconnect_unsafe() is outside the property's "
                    "alphabet: its exception ends the request and the specification names that outcome (reconnectFailed) without "
